@@ -31,6 +31,16 @@ CHECKS = {
         technique="SMT constraint systems over the CFG of the emitted TEAL (z3 LIA for stack heights and subroutine arities on ALL syntactic paths, loops unbounded; z3 Booleans for stack-cell and slot types) + bounded symbolic execution (SymAVM) for feasible discipline failures, replayed concretely",
         text="For every emitted program: (1) z3 finds one consistent assignment of a stack height to every instruction and of (arguments, results) to every subroutine that satisfies every CFG edge, every instruction's read depth and every routine exit - i.e. the same height on all paths, no pop below what the routine owns, exactly the declared results at retsub; UNSAT yields the instructions in the core. (2) with those heights, z3 finds a consistent uint64/bytes typing of every stack cell and scratch slot at every instruction against the independent op and field type table; UNSAT = an opcode applied to a definitely wrong type or a join with different types. (3) SymAVM explores all feasible paths within the loop/recursion bounds; any feasible underflow/type/frame failure is a violation with a concrete input. A probe family checks PyTeal's declared TealType of every transaction/global field against the table.",
         note="Trusted: the langspec table of stack signatures and field types (verif/teal/langspec.py), the CFG construction, z3. The static part is complete for syntactic paths (no loop bound); the dynamic part is bounded (K, D, byte lengths). Programs are the enumerated families; declared arities come from the recipe."),
+    "C06": dict(
+        category="model_checking", design_ref="DESIGN.md 3/C06",
+        technique="bounded symbolic execution of the emitted value-assembly program (SymAVM, byte strings with concrete lengths over z3 bit-vectors) against an ARC-4 encoding model; one SMT equality obligation per path; models replayed concretely with algosdk.abi as reference codec",
+        text="For every type shape (leaves, static/dynamic arrays, tuples and named tuples; bool runs of 1,2,7,8,9,16,17; split bool runs; dynamic members in every position; nesting to depth 2, random to depth 3 in the thorough tier) and every length vector of its dynamic parts, a program assembles the value from its parts with set(...) - leaves set from a symbolic application argument - and logs encode(); z3 proves the logged bytes equal the ARC-4 model's encoding for ALL leaf values and that an integer expression that does not fit its width makes the program fail, for both storage back-ends (main routine/scratch, subroutine/frame at v8+) at versions 5..10. Python-literal leaves (min/max, long strings, one out-of-range integer that must be rejected when built) are checked concretely; signature string, dynamic-ness and static length are compared with algosdk for every shape.",
+        note="Trusted: verif/arc4/model.py (cross-validated against algosdk.abi on random values by the selftest and at every replay), TEAL op semantics, z3. Bounds: the enumerated shapes; dynamic lengths <= 2 (quick) / <= 4 (thorough); values of at most ~60/90 leaves."),
+    "C07": dict(
+        category="model_checking", design_ref="DESIGN.md 3/C07",
+        technique="bounded symbolic execution of the emitted decode/access program (SymAVM/z3) on the ARC-4 model's encoding of a symbolic value, run-time index as a free 64-bit variable; SMT obligation per path pair; models replayed concretely with algosdk.abi",
+        text="Input = reference encoding of a symbolic value (offsets and length prefixes concrete, payload symbolic). Program = decode() followed by an access path - every tuple member / named field, arrays at constant in-range indices, at the first out-of-range index and at a run-time index taken from a second argument, one nested step - and an observation (encode(), get(), length()). z3 proves that the logged bytes equal the component's own reference encoding for every value and every in-range run-time index, and that EVERY out-of-range index (one symbolic path covering all 2^64 values) makes the program fail; versions 5..10, both storage back-ends.",
+        note="Trusted: verif/arc4/model.py, TEAL op semantics, z3. Bounds: enumerated shapes, dynamic lengths <= 2/4, run-time indices into long encodings of dynamic elements are skipped above a stated size. Known findings: out-of-range indexing of bool arrays, arrays of dynamic elements and arrays of zero-size elements does not fail."),
     "C12": dict(
         category="translation_validation", design_ref="DESIGN.md 3/C12",
         technique="translation validation, TEAL vs TEAL: SymAVM on the pseudo-op program and the assembled-constants program over one symbolic context (template constants symbolic); SMT obligation per path pair incl. the value pushed at every constant-load site in execution order; models replayed concretely",
